@@ -872,8 +872,21 @@ func c12relife(rep *vh.Report, r *vh.RNG) {
 	node := &gomavlib.Node{Endpoints: []gomavlib.EndpointConf{gomavlib.EndpointTCPServer{Address: fmt.Sprintf("127.0.0.1:%d", port)}, gomavlib.EndpointTCPClient{Address: ln.Addr().String()}},
 		Dialect: testDialect, OutVersion: gomavlib.V2, OutSystemID: 14, HeartbeatPeriod: 5 * time.Millisecond, StreamRequestEnable: true}
 	before := socketFDs()
-	for life := 1; life <= 4; life++ {
+	for life := 1; life <= 6; life++ {
 		wit := map[string]interface{}{"scenario": "relife", "life": life}
+		// the configuration changes between lives: what was switched on in one life is off in the next, and back
+		switch life {
+		case 2:
+			node.HeartbeatDisable = true
+		case 3:
+			node.HeartbeatDisable, node.StreamRequestEnable = false, false
+		case 4:
+			node.Dialect = nil
+		case 5:
+			node.Dialect, node.StreamRequestEnable = testDialect, true
+		case 6:
+			node.HeartbeatDisable, node.StreamRequestEnable = true, false
+		}
 		if err := node.Initialize(); err != nil {
 			if life == 1 {
 				rep.Inconclusive("C12 relife: " + err.Error())
